@@ -533,6 +533,8 @@ def rule7_spin(ctx, fl):
 def run(ctx):
     for fl in flavours(ctx):
         ctx.unit = fl
+        ctx.doc('C01.12', 'native API forwarding: each public entry point of this property reaches the implementation of the same name with its parameters in order and returns its result (sibling slips such as trylock -> lock, signal -> broadcast, swapped arguments)')
+        lib.native_forwarding(ctx, 'C01.12', fl, lambda n: n in ('myth_create', 'myth_create_ex', 'myth_join', 'myth_exit', 'myth_self', 'myth_equal') or n.startswith('myth_thread_attr_'), floor=8)
         rule1_attr(ctx, fl)
         stops = ('myth_queue_push', 'myth_queue_pop', 'get_new_myth_thread_struct_desc',
                  'get_new_myth_thread_struct_stack', DESC_FREE, 'free_myth_thread_struct_stack',
@@ -554,11 +556,44 @@ def run(ctx):
                 'user function is used after it (stale-value dataflow, shared with C12.3)')
         c12.rule3_env(ctx, fl, rule='C01.8', only=['myth_join', 'myth_tryjoin', 'myth_timedjoin', 'myth_exit', 'myth_create_1',
                                                    'myth_entry_point', 'myth_create_ex', 'myth_create'], units=[(NATIVE, None)])
+        # necessary conditions decided in full by sibling properties, stated here for the clauses of C01 they carry
+        ctx.doc('C01.13', 'thread attribute accessors: myth_thread_attr_set<X> stores its argument in field X of the attribute object (and '
+                'nothing else), get<X> reads the same field - the requested setting, and only it, reaches the creation path')
+        va = ctx.view(NATIVE, roots=['myth_thread_attr_%s%s_body' % (a, x) for a in ('set', 'get')
+                                     for x in ('detachstate', 'guardsize', 'stacksize', 'stack')], stops=(), flavour=fl)
+        lib.accessor_agreement(ctx, 'C01.13', va, 'myth_thread_attr', 'myth_thread_attr_set%s_body', 'myth_thread_attr_get%s_body',
+                               {'detachstate': [(1, 'detachstate')], 'guardsize': [(1, 'guardsize')], 'stacksize': [(1, 'stacksize')],
+                                'stack': [(1, 'stackaddr'), (2, 'stacksize')]})
+        ctx.floor('C01.13', 8)
+        with ctx.shared({'C12.4': 'C01.9'}, keep=lambda k: k.startswith(('alloc:', 'free:', 'alloc and free')), floor=12,
+                        doc='custom stack sizes (shared with C12.4): the block header written by the custom-size allocation is what '
+                            'the release reads back (size word, block start, size class), so a thread created with a stack-size '
+                            'attribute runs and is reaped on a block of the allocated size'):
+            v2 = ctx.view(NATIVE, roots=['get_new_myth_thread_struct_stack', c12.STACK_FREE, 'myth_flmalloc', 'myth_flfree'],
+                          stops=('myth_freelist_pop', 'myth_freelist_push', 'myth_mmap'), flavour=fl)
+            c12.rule4_affine(ctx, v2)
+        from . import c13, c02
+        with ctx.shared({'C13.4': 'C01.10'}, floor=7,
+                        doc='timed join (shared with C13.4): success only after a successful try, "busy" only past the deadline and '
+                            'never after a try that was not examined (it may have copied the result and recycled the record)'):
+            vt = ctx.view(NATIVE, roots=['myth_join_body', 'myth_tryjoin_body', 'myth_detach_body', 'myth_timedjoin_body'],
+                          stops=('myth_queue_push', 'myth_queue_pop', DESC_FREE, 'myth_get_current_env_noinline', 'myth_tryjoin_body',
+                                 'myth_timespec_gt', 'hr_gettime', 'myth_yield_ex_body') + lib.SPIN_STOPS, flavour=fl)
+            c13.rule4_timed(ctx, vt)
+        with ctx.shared({'C02.6': 'C01.11'}, floor=10,
+                        doc='a created thread that is taken from a run queue is always run (shared with C02.6): every result of a pop / '
+                            'steal is tested and, when non-NULL, becomes the switch target, is re-queued or is returned; a popped thread '
+                            'that is overwritten or forgotten is never invoked and its joiner waits forever'):
+            c02.rule6_nodrop(ctx, fl)
 
 
 SCHED = 'src/myth_sched_func.h'
 SPIN = 'src/myth_spinlock_func.h'
 MUTANTS = [
+    {'name': 'myth_thread_attr_setguardsize writes stacksize', 'expect': 'C01.13',
+     'edits': [(SCHED, "  attr->guardsize = guardsize;", "  attr->stacksize = guardsize;")]},
+    {'name': 'native myth_join forwards swapped-in NULL result pointer', 'expect': 'C01.12',
+     'edits': [('src/myth_if_native.c', "  return myth_join_body(th,result);", "  return myth_join_body(th,0);")]},
     {'name': 'join returns with the lock of an already finished target (sweep M0364)', 'expect': 'C01.5',
      'edits': [(SCHED, "    myth_spin_unlock_body(&th->lock);\n    while (th->status != MYTH_STATUS_FREE_READY2);", "    while (th->status != MYTH_STATUS_FREE_READY2);")]},
     {'name': 'attr_init forgets child_first', 'expect': 'C01.1',
